@@ -20,10 +20,9 @@ func crashUnits(prop, tier string) []Unit {
 				continue
 			}
 		case "C04":
-			o = crashOpts{Clocks: []int{1}, Atomicity: true}
+			o = crashOpts{Clocks: []int{0, 1, 2}, Atomicity: true, Nested: 1}
 			budgets = []int{0, 1}
 			if tier == "thorough" {
-				o.Clocks = []int{0, 1, 2}
 				budgets = []int{0, 1, 2}
 			}
 			if w.Name != "W6-multikey-atomicity" && w.Name != "W4-multikey-straddles-rotation" {
@@ -32,10 +31,13 @@ func crashUnits(prop, tier string) []Unit {
 		case "C14":
 			o = crashOpts{Clocks: []int{2}, Torn: true, TornStep: 1}
 			budgets = []int{0}
+			if w.Name == "W1-rotation-flush" || w.Name == "W2-l0-l1-compaction" {
+				budgets = []int{0, 1}
+			}
 			if tier == "thorough" {
 				o.Clocks = []int{0, 2}
 				o.Nested = 1
-				budgets = []int{0, 1}
+				budgets = []int{0, 1, 2}
 			}
 			if w.Name == "W6-multikey-atomicity" {
 				continue
